@@ -82,7 +82,7 @@ def handle (j : Json) : Json :=
     jarr (r.map nmJson)
   | "search" =>
     let evs := runWalk j
-    let r := projectSearch (parseLower j) ((arr j "table").map parseInfo) (nat j "parse_limit")
+    let r := projectSearch (parseLower j) ((arr j "table").map parseInfo) ((arr j "sys_names").map parseNm) (nat j "parse_limit")
       (nat j "open_limit") (chars j "type") (chars j "name") (bool j "complete") evs
     jarr (r.map nmJson)
   | op => jobj [("error", jstr ("unknown op " ++ op))]
